@@ -224,8 +224,8 @@ def run(ctx):
         m = model.ask(line) if model is not None else None
         if err is not None:
             stats["rejected"] += 1
-            if m is not None and m.get("ok") and "Duplicate object paths" in str(err):
-                disagreements.append(dict(what="real writer rejects (duplicate paths) but the model writes", program=line))
+            if m is not None and m.get("ok") and isinstance(err, ValueError):
+                disagreements.append(dict(what="real writer rejects (%s) but the model writes" % str(err)[:80], program=line))
             continue
         stats["accepted"] += 1
         stats["segments"] += sum(len(s) for s in prog)
@@ -238,6 +238,19 @@ def run(ctx):
                 disagreements.append(dict(what="data file bytes differ at offset %d (model %s, real %s)" % (k, a[k:k + 8].hex(), b[k:k + 8].hex()), program=line))
             elif bytes.fromhex(m["index"]) != index:
                 disagreements.append(dict(what="index file bytes differ", program=line))
+        tk = gw.type_change(prog)
+        stats["type_changing_programs"] = stats.get("type_changing_programs", 0) + (tk is not None)
+        if tk is not None:
+            # accepted although a channel changes its data type: in-session = defect D19 back; across sessions = the known finding
+            try:
+                nptdms.TdmsFile.read(io.BytesIO(data))
+                probs = []
+            except Exception as ex:  # noqa
+                probs = ["TdmsWriter accepted a channel written with two data types (%s); reading the file raised %s: %s" % (tk, type(ex).__name__, str(ex)[:120])]
+            if probs and not any(v.signature for v in violations):
+                violations.append(Violation("write -> read: " + probs[0], dict(kind="program", program=line, problems=probs, file=data.hex()),
+                                            signature="type-change-across-sessions" if tk == "across" else None))
+            continue
         probs = check_read_back(prog, data, nptdms, version, model)
         if probs:
             violations.append(Violation("write -> read: " + probs[0], dict(kind="program", program=line, problems=probs[:5], file=data.hex())))
